@@ -56,9 +56,12 @@ theorem lex_size : ∀ ts, writeTables exEnvF exFileFontL = .ok ts → Header.fi
 
 theorem lex_ne : exGsubBytes ≠ [] := by unfold exGsubBytes; exact List.cons_ne_nil _ _
 
+/-- three lookups, four subtables -/
+theorem exG_budget : InfoA.BudgetOk InfoA.exG := by unfold InfoA.BudgetOk; decide
+
 theorem lex_layout : LayoutOk none (some exGsubBytes) none where
   gdef := by intro b h; cases h
-  gsub := by intro b h; cases h; exact ⟨InfoA.exG, InfoA.exG_ok, exG_encode⟩
+  gsub := by intro b h; cases h; exact ⟨InfoA.exG, InfoA.exG_ok, exG_budget, exG_encode⟩
   gpos := by intro b h; cases h
 
 theorem C01_file_example_layout_in_domain : InDomainFileL exEnvF exFileFontL where
